@@ -137,6 +137,12 @@ def lex_roles(mod: T.Any) -> T.Dict[str, T.Any]:
     given: T.Dict[str, ast.AST] = dict(zip(fields, ys[0].args))
     given.update({k.arg: k.value for k in ys[0].keywords if k.arg})
     out: T.Dict[str, T.Any] = {'lex': lex, 'while': wl[0], 'spec_loop': sl[0], 'sel': sel, 'tid': tid, 'mo': mo[0], 'loc': pos_.id}
+    span = resolve_locals(lex, given.get('bytespan'))
+    out['start'] = None
+    if isinstance(span, ast.Tuple) and len(span.elts) == 2:
+        st0 = resolve_locals(lex, span.elts[0])
+        if isinstance(span.elts[0], ast.Name):
+            out['start'] = span.elts[0].id       # the local that remembers where the token started
     for role in ('tid', 'value', 'lineno', 'line_start'):
         e = resolve_locals(lex, given.get(role))
         if not isinstance(e, ast.Name):
@@ -245,7 +251,15 @@ def strip_table(ctx: RuleCtx) -> T.Dict[str, T.Tuple[str, str]]:
             if info is None:
                 continue
             lo = hi = 0
+            cenv: T.Dict[str, T.Any] = {R['tid']: tid}
             for st in info['stmts']:
+                if isinstance(st, ast.Assign) and isinstance(st.targets[0], ast.Name) and st.targets[0].id not in (R['value'], R['tid']):
+                    try:
+                        cv = fold_expr(ctx.repo, mod, st.value, env=cenv)      # a named constant of this token id (`quote_start = 2 if ... else 1`)
+                        if isinstance(cv, (int, str)):
+                            cenv[st.targets[0].id] = cv
+                    except Undecided:
+                        cenv.pop(st.targets[0].id, None)
                 if isinstance(st, (ast.Assign, ast.AugAssign)) and norm(st.targets[0] if isinstance(st, ast.Assign) else st.target) == R['value']:
                     v = st.value
                     if isinstance(st, ast.Assign) and isinstance(v, ast.Call) and call_method(v) == 'group' and not v.args:
@@ -253,8 +267,8 @@ def strip_table(ctx: RuleCtx) -> T.Dict[str, T.Tuple[str, str]]:
                     if not (isinstance(st, ast.Assign) and isinstance(v, ast.Subscript) and norm(v.value) == R['value'] and isinstance(v.slice, ast.Slice)
                             and v.slice.step is None):
                         raise Undecided(f'Lexer.lex: token `{tid}`: `{short(st)}` changes the token text in a way that is not a slice')
-                    a = fold_expr(ctx.repo, mod, v.slice.lower, env={R['tid']: tid}) if v.slice.lower is not None else 0
-                    b = fold_expr(ctx.repo, mod, v.slice.upper, env={R['tid']: tid}) if v.slice.upper is not None else 0
+                    a = fold_expr(ctx.repo, mod, v.slice.lower, env=cenv) if v.slice.lower is not None else 0
+                    b = fold_expr(ctx.repo, mod, v.slice.upper, env=cenv) if v.slice.upper is not None else 0
                     if not (isinstance(a, int) and isinstance(b, int) and a >= 0 and b <= 0):
                         raise Undecided(f'Lexer.lex: token `{tid}`: slice bounds of `{short(st)}`')
                     lo, hi = lo + a, hi - b
@@ -355,40 +369,70 @@ def _check_formula(ctx: RuleCtx, mod: T.Any, lex: ast.AST, tid: str, mode: str, 
     if len(ln) != 1 or len(ls) != 1 or ln[0] is ls[0]:
         raise Undecided(f'Lexer.lex: several (or a combined) update of lineno/line_start for {tid}')
     ln, ls = ln[0], ls[0]
-    # the token text: `value`, possibly stripped at the end before `lines = value.split('\n')`
-    split = None
-    stripped_before = 0
+    # Walk the statements of the path in order: remember what each local was bound to (so named intermediate results are read
+    # through), and how many characters were stripped from the front / the back of the token text so far.
+    import copy
+    V, tidv = R['value'], R['tid']
+    env: T.Dict[str, ast.AST] = {}
+    front = back = 0
+    seen: T.Dict[int, T.Tuple[ast.AST, int, int]] = {}
+
+    def subst(e: ast.AST) -> ast.AST:
+        class S(ast.NodeTransformer):
+            def visit_Name(self, n: ast.Name) -> ast.AST:
+                if isinstance(n.ctx, ast.Load) and n.id in env:
+                    return copy.deepcopy(env[n.id])
+                return n
+        e2 = S().visit(copy.deepcopy(e))
+        try:
+            v = fold_expr(ctx.repo, mod, e2, env={tidv: tid})
+            if isinstance(v, int) and not isinstance(v, bool):
+                return ast.Constant(value=v)
+        except Undecided:
+            pass
+        return e2
+    roles = {R['lineno'], R['line_start'], R['loc'], V, tidv}
     for st in stmts:
-        if isinstance(st, ast.Assign) and norm(st.targets[0]) == R['value'] and isinstance(st.value, ast.Subscript) and norm(st.value.value) == R['value'] \
-                and isinstance(st.value.slice, ast.Slice) and split is None:
-            up = st.value.slice.upper
-            stripped_before += -fold_expr(ctx.repo, mod, up, env={R['tid']: tid}) if up is not None else 0
-        if isinstance(st, ast.Assign) and isinstance(st.targets[0], ast.Name) and norm(st.value) == R['value'] + ".split('\\n')":
-            split = st.targets[0].id
-    inc = _increment(ln, R['lineno'])
+        if st is ln or st is ls:
+            seen[id(st)] = (subst(st.value), front, back)
+            continue
+        if isinstance(st, ast.Assign) and norm(st.targets[0]) == V:
+            v = st.value
+            if isinstance(v, ast.Subscript) and norm(v.value) == V and isinstance(v.slice, ast.Slice) and v.slice.step is None:
+                lo = subst(v.slice.lower) if v.slice.lower is not None else ast.Constant(value=0)
+                hi = subst(v.slice.upper) if v.slice.upper is not None else ast.Constant(value=0)
+                if not (isinstance(lo, ast.Constant) and isinstance(hi, (ast.Constant, ast.UnaryOp))):
+                    raise Undecided(f'Lexer.lex: token `{tid}`: slice bounds of `{short(st)}` are not constants for this token id')
+                front += lo.value
+                back += -(fold_expr(ctx.repo, mod, hi))
+            env = {k: e for k, e in env.items() if V not in names_in(e)}
+        elif isinstance(st, ast.Assign) and isinstance(st.targets[0], ast.Name) and st.targets[0].id not in roles:
+            env[st.targets[0].id] = subst(st.value)
+    if id(ln) not in seen or id(ls) not in seen:
+        raise Undecided(f'Lexer.lex: token `{tid}`: line bookkeeping statements not on the path')
+    lnv, _, _ = seen[id(ln)]
+    lsv, front_ls, back_ls = seen[id(ls)]
+    inc = _increment(ast.AugAssign(target=ln.target, op=ln.op, value=lnv) if isinstance(ln, ast.AugAssign) else ast.Assign(targets=ln.targets, value=lnv), R['lineno'])  # type: ignore[attr-defined]
     if inc is None or not isinstance(ls, ast.Assign):
         raise Undecided(f'Lexer.lex: token `{tid}`: `{short(ln)}` / `{short(ls)}` are not an increment of lineno and an assignment of line_start')
-    start = linear(ls.value)
+    start = linear(lsv)
     if inc == ({}, 1) and start == ({R['loc']: 1}, 0):
         ends = mode == 'single' or (r is not None and r.pattern.endswith('\\n') and rx.intersects(r.pattern, TWO_NEWLINES, r.flags) is None)
         ctx.require(bool(ends), f'token `{tid}`: exactly one newline, at its end -> lineno += 1, line_start = loc', mod, 'Lexer.lex', ls,
                     f'token `{tid}`: `{short(ln)}; {short(ls)}` is only right for a token that ends with its single newline', ls)
         return
-    if split is None:
-        raise Undecided(f'Lexer.lex: token `{tid}`: line bookkeeping `{short(ln)}` / `{short(ls)}` is not derived from a split of the token text')
-    want_inc = ({f'len({split})': 1}, -1)
-    want_start = ({R['loc']: 1, f'len({split}[-1])': -1}, -stripped_before)
-    alt_inc = ({f"{R['value']}.count('\\n')": 1}, 0)
-    if inc == alt_inc:
-        inc = want_inc
-    if set(inc[0]) != set(want_inc[0]) or set(start[0]) != set(want_start[0]):
-        raise Undecided(f'Lexer.lex: token `{tid}`: `{short(ln)}` / `{short(ls)}` compute the line bookkeeping from other quantities than '
-                        f'len({split}), len({split}[-1]) and {R["loc"]}; not compared')
-    ok = inc == want_inc and start == want_start
-    want = R['loc'] + f' - len({split}[-1])' + (f' - {stripped_before}' if stripped_before else '')
-    ctx.require(ok, f'token `{tid}`: lineno += newlines in the text, line_start = {want}', mod, 'Lexer.lex', ls,
+    SPL = f"{V}.split('\\n')"
+    incs = [({f'len({SPL})': 1}, -1), ({f"{V}.count('\\n')": 1}, 0)]
+    starts = [({R['loc']: 1, f'len({SPL}[-1])': -1}, -back_ls)]
+    if R.get('start'):
+        starts.append(({R['start']: 1, f"{V}.rfind('\\n')": 1}, 1 + front_ls))
+    if set(inc[0]) not in [set(i_[0]) for i_ in incs] or set(start[0]) not in [set(s_[0]) for s_ in starts]:
+        raise Undecided(f'Lexer.lex: token `{tid}`: `{short(ln)}` / `{short(ls)}` compute the line bookkeeping from quantities that are not understood '
+                        f'(known forms: newline count of the text; offset behind its last newline from the end or from the start of the token)')
+    ok = inc in incs and start in starts
+    ctx.require(ok, f'token `{tid}`: lineno += newlines in the text, line_start = offset just behind its last newline', mod, 'Lexer.lex', ls,
                 f'token `{tid}`: the updates `{short(ln)}` / `{short(ls)}` do not place line_start just after the last newline of the token '
-                f'({stripped_before} closing characters were stripped from the text before it was split; expected `lineno += len({split}) - 1`, `line_start = {want}`)', ls)
+                f'({front_ls} opening and {back_ls} closing characters were stripped from the text at that point: the constant is wrong)', ls)
 
 
 def linear(e: ast.AST) -> T.Tuple[T.Dict[str, int], int]:
